@@ -8,14 +8,14 @@
 #include <sched.h>
 
 #define MAXU 48
-enum { OP_YIELD, OP_CHILD, OP_SUSPEND, OP_MIGRATE, OP_EXIT, OP_STATE, OP_NOPS };
-static const char *OPN_[] = { "yield", "child", "suspend", "migrate", "exit", "state" };
+enum { OP_YIELD, OP_CHILD, OP_SUSPEND, OP_MIGRATE, OP_EXIT, OP_STATE, OP_CREATE_TO, OP_YIELD_TO, OP_NOPS };
+static const char *OPN_[] = { "yield", "child", "suspend", "migrate", "exit", "state", "create_to", "yield_to" };
 
 typedef struct unit {
     int id, kind, named, pool, parent; /* kind: AK_ULT / AK_TASK */
     int nsteps, steps[8];
     ABT_thread th;
-    volatile int started, finished, exited, want_resume, resumed_cnt, mig_cb, mig_target, cancel_me, joined, has_cb, counted_out;
+    volatile int started, finished, exited, want_resume, resumed_cnt, mig_cb, mig_target, cancel_me, joined, has_cb, counted_out, in_run;
     long arg_seen;
 } unit;
 static unit U[MAXU];
@@ -61,7 +61,7 @@ static int new_unit(int parent, int allow_task)
     return u->id;
 }
 
-static void launch_unit(int id)
+static void launch_unit_ex(int id, int create_to)
 {
     unit *u = &U[id];
     __sync_fetch_and_add(&live_workers, 1);
@@ -74,7 +74,10 @@ static void launch_unit(int id)
             ABT_OK(ABT_thread_attr_set_callback(attr, mig_cb, u));
             u->has_cb = 1;
         }
-        if (u->named) {
+        if (create_to) {
+            /* the child runs at once on this stream; the caller goes back to its pool */
+            ABT_OK(ABT_thread_create_to(sc_pool[u->pool], unit_fn, u, attr, u->named ? &u->th : NULL));
+        } else if (u->named) {
             ABT_OK(ABT_thread_create(sc_pool[u->pool], unit_fn, u, attr, &u->th));
         } else {
             /* unnamed: no handle; name it from inside when it first runs */
@@ -89,6 +92,11 @@ static void launch_unit(int id)
             ABT_OK(ABT_task_create(sc_pool[u->pool], unit_fn, u, NULL));
         }
     }
+}
+
+static void launch_unit(int id)
+{
+    launch_unit_ex(id, 0);
 }
 
 static void join_unit(int id, int by)
@@ -124,6 +132,8 @@ static void unit_fn(void *arg)
     ABT_OK(ABT_self_get_thread(&self));
     u->started++;
     u->arg_seen = (long)(u - U);
+    VSA_CHECK(u->in_run == 0, "unit U%d is already running elsewhere when its function is entered", u->id);
+    u->in_run = 1;
     vs_note("userStart U%d", u->id); /* the log line's unit column is the T-name: binds U<i> to it */
     VSA_CHECK(u->started == 1, "unit U%d started %d times", u->id, u->started);
     int children[8], nch = 0;
@@ -132,7 +142,10 @@ static void unit_fn(void *arg)
         vs_note("step U%d %s", u->id, OPN_[op]);
         switch (op) {
             case OP_YIELD:
+                u->in_run = 0;
                 ABT_OK(ABT_thread_yield());
+                VSA_CHECK(u->in_run == 0, "unit U%d resumed on two streams at once", u->id);
+                u->in_run = 1;
                 break;
             case OP_CHILD: {
                 int c = new_unit(u->id, 1);
@@ -143,10 +156,39 @@ static void unit_fn(void *arg)
                 }
                 break;
             }
+            case OP_CREATE_TO:
+            case OP_YIELD_TO: {
+                /* a child in the pool this unit is associated with (only this stream's scheduler pops it, and that
+                 * scheduler is busy running this unit): directed switch to it */
+                int c = new_unit(u->id, 0);
+                if (c < 0)
+                    break;
+                U[c].kind = AK_ULT;
+                U[c].pool = u->pool;
+                if (op == OP_YIELD_TO)
+                    U[c].named = 1;
+                u->in_run = 0;
+                if (op == OP_CREATE_TO) {
+                    launch_unit_ex(c, 1);
+                } else {
+                    launch_unit(c);
+                    vs_log("apiCall yield_to U%d", c);
+                    ABT_OK(ABT_thread_yield_to(U[c].th));
+                }
+                VSA_CHECK(u->in_run == 0, "unit U%d resumed on two streams at once", u->id);
+                u->in_run = 1;
+                VSA_CHECK(U[c].started == 1, "directed switch from U%d: the target U%d had not run when the caller resumed", u->id, c);
+                if (U[c].named)
+                    children[nch++] = c;
+                break;
+            }
             case OP_SUSPEND:
                 u->want_resume++;
                 vs_log("apiCall suspend U%d", u->id);
+                u->in_run = 0;
                 ABT_OK(ABT_self_suspend());
+                VSA_CHECK(u->in_run == 0, "unit U%d resumed on two streams at once", u->id);
+                u->in_run = 1;
                 vs_note("apiRet suspend U%d", u->id);
                 VSA_CHECK(u->resumed_cnt == u->want_resume, "U%d runs after suspend %d but was resumed %d times", u->id,
                           u->want_resume, u->resumed_cnt);
